@@ -525,3 +525,84 @@ def check_no_panic(chk, prog, entries, label, allow=None, param_rng=None, rule="
     pc.only = only
     pc.ctx_callees = set(ctx_callees)
     return pc.run(entries, label)
+
+
+# ---- R-ALLOC (2): growth is paid for by input ------------------------------------------------------------------------
+import re as _re
+_ALLOC_RE = _re.compile(r"(^alloc::vec::from_elem$|::with_capacity$|::reserve(_exact)?$|::resize(_with)?$|::push(_str|_back|_front)?$|::extend(_from_slice)?$"
+                        r"|::insert$|::collect$|::to_vec$|::to_owned$|::to_string$|^alloc::fmt::format|::repeat$|::append$)")
+_READ_RE = _re.compile(r"(^std::io::Read::|^std::io::Seek::|^<.* as std::io::(Read|Seek)>::|^nexrad_decode::util::deserialize|^bincode::)")
+_RANGE_ADAPTORS = _re.compile(r"^core::iter::traits::iterator::Iterator::(map|for_each|filter_map|flat_map|fold|try_fold|try_for_each|scan|map_while|inspect)$")
+
+
+def _summaries(prog, fns, edges):
+    direct_a, direct_r = {}, {}
+    for p in fns:
+        fn = prog.fn(p)
+        names = [callee_of(t) for _b, t in fn.calls()] + [t.get("callee") or "" for _b, t in fn.calls()]
+        direct_a[p] = any(_ALLOC_RE.search(n) for n in names)
+        direct_r[p] = any(_READ_RE.search(n) for n in names)
+    def close(direct):
+        out = dict(direct)
+        ch = True
+        while ch:
+            ch = False
+            for p in fns:
+                if not out[p] and any(out.get(q) for q in edges.get(p, [])):
+                    out[p] = True
+                    ch = True
+        return out
+    return close(direct_a), close(direct_r)
+
+
+def check_unpaid_growth(chk, prog, fns, edges, label):
+    """A loop or iterator adaptor driven by a numeric range runs as often as a number says, not as often as there is input:
+    whatever it allocates must be paid for by a stream read inside the same iteration (so that a short input stops it).
+    Loops over collections that already exist are paid for by what is already held."""
+    allocs, reads = _summaries(prog, fns, edges)
+    n = 0
+    def is_a(name):
+        return bool(_ALLOC_RE.search(name)) or allocs.get(name, False)
+    def is_r(name):
+        return bool(_READ_RE.search(name)) or reads.get(name, False)
+    for p in fns:
+        fn = prog.fn(p)
+        cl = prog.closures_of.get(p, [])
+        for head, body in sorted(fn.loops().items()):
+            calls = [(b, t) for b, t in fn.calls() if b in body]
+            rng = False
+            for _b, t in calls:
+                nm = callee_of(t)
+                tys = " ".join(ta["d"].get("s", "") for ta in t.get("targs", []))
+                if nm.endswith("::next") and ("core::ops::range::Range" in nm or "core::ops::range::Range" in tys.split(",")[0]):
+                    rng = True
+            if not rng:
+                continue
+            n += 1
+            names = [x for _b, t in calls for x in (callee_of(t), t.get("callee") or "")]
+            a = [x for x in names if is_a(x)]
+            r = any(is_r(x) for x in names)
+            chk.ob("R-ALLOC", p, not a or r, "range-driven loop: allocations inside it are paid for by a stream read in the same iteration" if not a else
+                   ("range-driven loop allocates (%s) and reads input in the same iteration" % a[0].split("::")[-1] if r else
+                    "a loop that runs as often as a number says allocates (%s) without reading any input: memory grows with the number, not with the input" % a[0][:80]),
+                   fn.where(fn.term(head)["loc"]), key="paid-growth:loop#%d" % sorted(fn.loops()).index(head))
+        for _b, t in fn.calls():
+            nm = t.get("callee") or ""
+            if not _RANGE_ADAPTORS.match(nm):
+                continue
+            tys = [ta["d"].get("s", "") for ta in t.get("targs", [])]
+            if not tys or "core::ops::range::Range" not in tys[0]:
+                continue
+            spans = [_re.search(r"\{closure@([^:]+:\d+):", s) for s in tys]
+            spans = [m.group(1) for m in spans if m]
+            for c in cl:
+                cf = prog.fn(c)
+                if cf is None or not any(cf.where().startswith(sp) or sp in cf.where() for sp in spans):
+                    continue
+                n += 1
+                okk = not allocs.get(c, False) or reads.get(c, False)
+                chk.ob("R-ALLOC", c, okk, "closure run once per number of a range: what it allocates is paid for by a stream read" if okk else
+                       "a closure run as often as a number says allocates without reading any input: memory grows with the number, not with the input",
+                       cf.where(), key="paid-growth:closure")
+    chk.notes.setdefault("range_driven", {})[label] = n
+    return n
